@@ -42,7 +42,7 @@ type byzMut struct {
 	fired bool
 }
 
-var byzClasses = []string{"ROWS tok", "SUPPORTED", "READY", "PREPARED", "ERROR(", "VOID", "ROWS(local)", "ROWS(peers)", "EVENT",
+var byzClasses = []string{"ROWS tok", "ROWS schema", "PREPARED schema", "SUPPORTED", "READY", "PREPARED", "ERROR(", "VOID", "ROWS(local)", "ROWS(peers)", "EVENT",
 	"AUTHENTICATE", "AUTH_SUCCESS", "SET_KEYSPACE", "ROWS(schema_version)", "ANY"}
 
 const byzMutKinds = 13
@@ -160,6 +160,7 @@ func runByz(e *Env) {
 	// ---- node behaviour: generated well-formed answers ----
 	var mu sync.Mutex
 	prepCols := map[string][]wireCol{}
+	schemaCols := map[string][]cqlspec.ColSpec{}
 	pages := map[string]int{}
 	genCols := func() []wireCol {
 		n := 1 + tp.Next(4)
@@ -206,6 +207,18 @@ func runByz(e *Env) {
 		rq := rec.Req
 		switch rq.Header.Opcode {
 		case cqlspec.OpPrepare:
+			if table, scols, ok := schemaColumns(rq.Query); ok {
+				id := []byte("schema:" + table + ":" + fmt.Sprint(len(scols)))
+				schemaCols[string(id)] = scols
+				pm := &cqlspec.PreparedMeta{GlobalSpec: true, Columns: []cqlspec.ColSpec{{Keyspace: "system_schema", Table: "x", Name: "keyspace_name", Type: cqlspec.ColType{ID: cqlspec.TVarchar}}}}
+				if proto >= 4 {
+					pm.PKIndices = []uint16{0}
+				}
+				cl.Send(sc, rec, &cqlspec.Response{Op: cqlspec.OpResult, Kind: cqlspec.KindPrepared, PreparedID: id, Prepared: pm,
+					PreparedRows: &cqlspec.RowsMeta{GlobalSpec: true, Columns: scols}}, node.Auto, "PREPARED schema")
+				k.Probe("schema-table-prepared")
+				return
+			}
 			tok := tokenRe.FindString(rq.Query)
 			cols := genCols()
 			id := []byte("id:" + tok)
@@ -220,6 +233,23 @@ func runByz(e *Env) {
 			var cols []wireCol
 			tok := tokenRe.FindString(rq.Query)
 			noMeta := false
+			if scols, ok := schemaCols[string(rq.PreparedID)]; ok && rq.Header.Opcode == cqlspec.OpExecute {
+				meta := &cqlspec.RowsMeta{GlobalSpec: true, Columns: scols}
+				if rq.Params.SkipMetadata {
+					meta = &cqlspec.RowsMeta{NoMetadata: true, ColumnCount: len(scols)}
+				}
+				var rows [][]cqlspec.Cell
+				for i := tp.Next(4); i > 0; i-- {
+					var row []cqlspec.Cell
+					for _, c := range scols {
+						row = append(row, schemaCell(tp, proto, c, i))
+					}
+					rows = append(rows, row)
+				}
+				cl.Send(sc, rec, &cqlspec.Response{Op: cqlspec.OpResult, Kind: cqlspec.KindRows, Rows: meta, RowData: rows}, node.Auto, "ROWS schema")
+				k.Probe("schema-table-rows")
+				return
+			}
 			if rq.Header.Opcode == cqlspec.OpExecute {
 				cols = prepCols[string(rq.PreparedID)]
 				tok = strings.TrimPrefix(string(rq.PreparedID), "id:")
@@ -298,12 +328,20 @@ func runByz(e *Env) {
 	}
 
 	// ---- workload ----
+	hasSchemaOps := false
 	for ti := 0; ti < nTasks; ti++ {
 		ti := ti
 		kinds := make([]int, nOps)
 		cons := make([]int, nOps)
 		for i := range kinds {
-			kinds[i] = tp.Weighted([]int{4, 4, 1, 2})
+			kinds[i] = tp.Weighted([]int{4, 4, 1, 2, 2})
+			if kinds[i] == 4 && (ti != 0 || !ctrl) {
+				// schema lookups hold a driver mutex across their queries: one caller only
+				kinds[i] = 0
+			}
+			if kinds[i] == 4 {
+				hasSchemaOps = true
+			}
 			cons[i] = tp.Next(4)
 		}
 		k.Spawn(fmt.Sprintf("b%d", ti), func(t *kernel.Task) {
@@ -325,6 +363,8 @@ func runByz(e *Env) {
 						b.Query("INSERT /*" + token + "*/ INTO ks.t (a) VALUES (1)")
 						b.Query("INSERT INTO ks.t /*"+token+"x*/ (a) VALUES (?)", token)
 						_ = sess.ExecuteBatch(b)
+					case 4:
+						_, _ = sess.KeyspaceMetadata("ks")
 					case 3:
 						// Prefetch(0): an asynchronous prefetch would make the consumer block on the
 						// sync.Once inside nextIter.fetch, which synctest cannot see through
@@ -337,6 +377,7 @@ func runByz(e *Env) {
 	}
 	// events (well-formed; the hook may corrupt them) as actions
 	evN := 0
+	schemaOps := hasSchemaOps
 	k.Sources = append(k.Sources, func() []kernel.Action {
 		if evN >= 4 {
 			return nil
@@ -344,7 +385,13 @@ func runByz(e *Env) {
 		return []kernel.Action{{Key: "event", Rank: 4, Weight: 1, Do: func() {
 			evN++
 			ev := &cqlspec.Response{EventPort: 9042, EventIP: []byte{10, 0, 0, byte(1 + tp.Next(3))}}
-			switch tp.Next(4) {
+			evKind := tp.Next(4)
+			if evKind >= 2 && schemaOps {
+				// a SCHEMA_CHANGE event takes the schema describer's mutex, which a schema
+				// lookup holds across its queries: synctest cannot see through that
+				evKind = 1
+			}
+			switch evKind {
 			case 0:
 				ev.EventType, ev.EventChange = "STATUS_CHANGE", []string{"UP", "DOWN"}[tp.Next(2)]
 			case 1:
